@@ -51,7 +51,11 @@ func explainSynth(r *rand.Rand) Case {
 		}
 	}
 	e := strings.Join(parts, valid.ErrEndFlag)
-	impl := guard(func() string { return X(valid.GetOnlyExplainErr(e)) })
+	impl := guard(func() string {
+		out := valid.GetOnlyExplainErr(e)
+		retain("explain", out) // an extraction handed out stays what it was when later extractions run
+		return X(out)
+	})
 	return Case{Op: "explain-c " + strings.Join(sx, " "), Impl: impl, Tags: []string{"explain:synthetic"}, Nontrivial: impl != X("")}
 }
 
@@ -70,7 +74,11 @@ func explainRaw(r *rand.Rand) Case {
 	if strings.HasPrefix(c.Impl, "x") {
 		e = unhex(c.Impl[1:])
 	}
-	impl := guard(func() string { return X(valid.GetOnlyExplainErr(e)) })
+	impl := guard(func() string {
+		out := valid.GetOnlyExplainErr(e)
+		retain("explain", out) // an extraction handed out stays what it was when later extractions run
+		return X(out)
+	})
 	return Case{Op: "explain-raw " + X(e), Impl: impl, Tags: []string{"explain:real-error"}, Nontrivial: impl != X("")}
 }
 
@@ -113,7 +121,11 @@ func init() {
 				}
 				i -= c
 			}
-			impl := guard(func() string { return X(valid.GetOnlyExplainErr(e)) })
+			impl := guard(func() string {
+		out := valid.GetOnlyExplainErr(e)
+		retain("explain", out) // an extraction handed out stays what it was when later extractions run
+		return X(out)
+	})
 			return Case{Op: "explain-raw " + X(e), Impl: impl, Tags: []string{"explain:exhaustive"}, Nontrivial: impl != X("")}
 		},
 	})
@@ -123,6 +135,8 @@ func init() {
 			"(messages: ASCII, CJK, mixed, one rune, empty; separators or foreign labels inside a clause at low weight = out of scope) and (b) the error strings " +
 			"of real Struct/Var/Map validations. non-trivial: a non-empty extraction; distinct by request",
 		Size: map[string]int{"quick": 40000, "thorough": 800000},
+		Setup: func(string) { retainOn = true },
+		Final: retainedCases,
 		Gen: func(r *rand.Rand, tier string) Case {
 			if chance(r, 0.7) {
 				return explainSynth(r)
